@@ -20,6 +20,9 @@ def budget(tier):
 def gen(rng, index, tier):
     nmax = 7 if tier == "quick" else 11
     raw, meta = lib.gen_dataset(rng, nmax=nmax, mmax=5 if tier == "quick" else 7, big=0.03, big_nmax=130)
+    if tier == "thorough" and rng.random() < 0.0001:
+        # a handful of instances of several hundred elements (thresholds such as 256 in a "fast path")
+        raw, meta = lib.gen_dataset(rng, n_exact=rng.choice([260, 300]), mmax=6)
     elems = lib.dataset_elems(raw)
     n = len(elems) + 2
     sch = lib.gen_scheme(rng, max_pairs=len(raw) * n * (n - 1) // 2 + 1)
